@@ -364,6 +364,12 @@ func (a *effAnalysis) analyze(x *effCtx, depth int) {
 		case *ssa.Store:
 			if l := a.locOf(x, y.Addr); shared(l) {
 				a.report(x.fn, i, "store", "writes memory reachable from the "+l.String()+" ("+ir.AccessPath(y.Addr)+")")
+			} else if l&locOut != 0 && pointerLike(y.Val.Type()) {
+				// the declared sink must receive a copy: handing it storage of the receiver
+				// lets a later write through the sink change the value that was read
+				if sl := a.storageOf(x, y.Val, 0); shared(sl) {
+					a.report(x.fn, i, "shares-storage", "the output is given memory reachable from the "+sl.String()+" instead of a copy: writing to the output afterwards changes the value")
+				}
 			}
 		case *ssa.MapUpdate:
 			if l := a.locOf(x, y.Map); shared(l) {
@@ -542,4 +548,57 @@ func (c *Ctx) rulePure(specs []string) {
 	for f := range a.funcs {
 		c.R.Funcs[name(f)] = true
 	}
+}
+
+// storageOf is locOf for aliasing questions: readers and buffers constructed
+// over a byte slice share that slice's storage (they are fresh objects only as
+// far as their cursor is concerned).
+func (a *effAnalysis) storageOf(x *effCtx, v ssa.Value, depth int) loc {
+	if depth > 8 || v == nil {
+		return locFresh
+	}
+	switch y := v.(type) {
+	case *ssa.Call:
+		switch ir.CallID(y) {
+		case "bytes.NewBuffer", "bytes.NewReader":
+			if args := ir.CallArgs(y); len(args) > 0 {
+				return a.storageOf(x, args[0], depth+1)
+			}
+		}
+		if aliasResults[ir.CallID(y)] {
+			if args := ir.CallArgs(y); len(args) > 0 {
+				return a.storageOf(x, args[0], depth+1)
+			}
+		}
+	case *ssa.UnOp:
+		if y.Op == token.MUL {
+			if c, isCall := y.X.(*ssa.Call); isCall {
+				return a.storageOf(x, c, depth+1)
+			}
+		}
+	case *ssa.Slice:
+		return a.storageOf(x, y.X, depth+1)
+	case *ssa.Convert:
+		return a.storageOf(x, y.X, depth+1)
+	case *ssa.ChangeType:
+		return a.storageOf(x, y.X, depth+1)
+	case *ssa.Alloc:
+		// a local cell holding a by-value copy: the copy's slices still point where the original's do
+		var l loc
+		for _, r := range *y.Referrers() {
+			if st, ok := r.(*ssa.Store); ok && st.Addr == ssa.Value(y) && pointerLike(st.Val.Type()) {
+				l |= a.storageOf(x, st.Val, depth+1)
+			}
+		}
+		if l != 0 {
+			return l
+		}
+	case *ssa.Phi:
+		var l loc
+		for _, e := range y.Edges {
+			l |= a.storageOf(x, e, depth+1)
+		}
+		return l
+	}
+	return a.locOf(x, v)
 }
